@@ -1,7 +1,7 @@
 (* C10 — Generation is deterministic and idempotent.
    Property theorems only; proofs live in Base/SortUniq.v and Proofs/NondetP.v. *)
 From Coq Require Import List String Ascii Bool Arith Permutation.
-From AC Require Import Base.Strs Base.SortUniq Model.Nondet Proofs.NondetP.
+From AC Require Import Base.Strs Base.SortUniq Model.Nondet Proofs.NondetP Proofs.NondetDfs.
 Import ListNotations.
 Local Open Scope string_scope.
 
@@ -63,6 +63,17 @@ Theorem C10_fragments_module_full_refuted : ~ C10_fragments_module_full.
 Proof.
   intro H. destruct toposort_refuted as [o1 [o2 [fi [D _]]]]. apply D. apply H.
 Qed.
+
+(* what F12 can and cannot do: for ANY two oracles and either form of the DFS, fragments are generated in the
+   same order and the module holds the same fragments exactly once each, among them every requested one —
+   only the ORDER of the classes is exposed to the oracle *)
+Theorem C10_toposort_same_classes : forall sd1 sd2 o1 o2 fi p1 ord1 p2 ord2,
+  frag_module_order sd1 o1 fi = Some (p1, ord1) ->
+  frag_module_order sd2 o2 fi = Some (p2, ord2) ->
+  p1 = p2 /\ Permutation ord1 ord2 /\ NoDup ord1 /\
+  (forall x, In x (set_diff (fi_defs fi) (fi_excl fi)) -> In x ord1).
+Proof. exact frag_module_same_classes. Qed.
+Print Assumptions C10_toposort_same_classes.
 
 Theorem C10_generation_order_independent : forall o1 o2 fi fuel queue names processed,
   work fuel o1 fi queue names processed = work fuel o2 fi queue names processed.
@@ -168,6 +179,38 @@ Print Assumptions C10_regenerate_independent_of_previous.
 Theorem C10_regenerate_keeps_other_files : forall p fs m,
   ~ In m (map fst p) -> fs_lookup m (write_all p fs) = fs_lookup m fs.
 Proof. exact regenerate_keeps_other_files. Qed.
+
+(* ---- several generations in one interpreter (ClientForwardRefsPlugin mutates shared import nodes) ---- *)
+Definition C10_history_independent_full : Prop := forall hist plugin wanted st,
+  fst (gen_client_imports false plugin wanted (run_history false hist st)) =
+  fst (gen_client_imports false plugin wanted st).
+
+Theorem C10_history_partial : forall hist plugin wanted st,
+  forallb (fun h => negb (fst h)) hist = true ->
+  fst (gen_client_imports false plugin wanted (run_history false hist st)) =
+  fst (gen_client_imports false plugin wanted st).
+Proof. exact gen_history_partial. Qed.
+Print Assumptions C10_history_partial.
+
+Theorem C10_history_refuted : exists hist plugin wanted st,
+  fst (gen_client_imports false plugin wanted (run_history false hist st)) <>
+  fst (gen_client_imports false plugin wanted st).
+Proof. exact gen_history_refuted. Qed.
+Print Assumptions C10_history_refuted.
+
+Theorem C10_history_full_refuted : ~ C10_history_independent_full.
+Proof. intro H. destruct gen_history_refuted as [h [p [w [st D]]]]. apply D. apply H. Qed.
+
+Theorem C10_twice_with_plugin_refuted : exists wanted st,
+  fst (gen_client_imports false true wanted (snd (gen_client_imports false true wanted st))) <>
+  fst (gen_client_imports false true wanted st).
+Proof. exact gen_twice_with_plugin_refuted. Qed.
+
+Theorem C10_history_fixed : forall hist plugin wanted st,
+  fst (gen_client_imports true plugin wanted (run_history true hist st)) =
+  fst (gen_client_imports true plugin wanted st).
+Proof. exact gen_fixed_history_independent. Qed.
+Print Assumptions C10_history_fixed.
 
 (* ---- non-vacuity ---- *)
 Definition fi_diamond : finput :=
